@@ -23,6 +23,12 @@ def short2(fd):
     return parts[-1] if parts else fd
 
 
+def _join(base, names):
+    if names and names[0].startswith('^'):
+        return '.'.join([names[0][1:]] + list(names[1:]))
+    return base + '.' + '.'.join(names)
+
+
 def item_short(p):
     return p.split('::')[-1]
 
@@ -37,7 +43,14 @@ class Terms:
         t = ty if ty is not None else fn.local_ty(base_local)
         out = []
         cur = t
+        first = True
         for p in proj:
+            if p == '*':
+                continue
+            if first and base_local == 1 and ty is None and fn.upvars and p.startswith('.') and int(p[1:]) in fn.upvars:
+                out.append('^' + fn.upvars[int(p[1:])]); cur = None; first = False
+                continue
+            first = False
             if p == '*':
                 continue
             if p.startswith('as '):
@@ -79,7 +92,7 @@ class Terms:
             names = self.field_names(fn, l, op['p']) if not self._has_def(fn, l) or (1 <= l <= fn.argc) else None
             if names is None:
                 names = self._proj_names_via_origin(fn, l, op['p'])
-            return base + '.' + '.'.join(names)
+            return _join(base, names)
         return base
 
     def _has_def(self, fn, l):
@@ -120,7 +133,7 @@ class Terms:
                 t = self.local_term(fn, o['l'], depth + 1, seen)
                 proj = [p for p in o['p'] if p != '*']
                 if proj:
-                    return t + '.' + '.'.join(self.field_names(fn, o['l'], o['p']))
+                    return _join(t, self.field_names(fn, o['l'], o['p']))
                 return t
             return self.op_term(fn, o, depth + 1)
         if k in ('ref', 'rawptr'):
@@ -128,7 +141,7 @@ class Terms:
             t = self.local_term(fn, p['l'], depth + 1, seen)
             proj = [x for x in p['p'] if x != '*']
             if proj:
-                return t + '.' + '.'.join(self.field_names(fn, p['l'], p['p']))
+                return _join(t, self.field_names(fn, p['l'], p['p']))
             return t
         if k == 'agg':
             if 'closure' in rv:
@@ -181,7 +194,7 @@ class Terms:
         if k == 'place':
             base = a[1]
             if base[0] == 'local':
-                return self.local_term(fn, base[1]) + '.' + '.'.join(self.field_names(fn, base[1], a[2]))
+                return _join(self.local_term(fn, base[1]), self.field_names(fn, base[1], a[2]))
             if base[0] == 'call' and not fn.B[base[1]]['t']['dest']['p']:
                 ty = fn.local_ty(fn.B[base[1]]['t']['dest']['l'])
                 return self.atom_term(fn, base) + '.' + '.'.join(self.field_names(fn, None, a[2], ty=ty))
